@@ -4,6 +4,7 @@
 #include "StringUtility.h"
 #include "XFile.h"
 #include "BitTwiddle.h"
+#include "Archive/ArchiveFile.h"
 #include <algorithm>
 
 using namespace verif;
@@ -35,6 +36,46 @@ void order_pair(const std::string& a, const std::string& b, Stats& st) {
 	if (e) V_CHECK(pe, "PathsAreEqual(" << show(a) << "," << show(b) << ") false although the strings are equal ignoring case");
 	if (e && a != b) st.nt(fnv1a(a.data(), a.size(), fnv1a(b.data(), b.size())));
 	else if (a.size() != b.size() && (a.compare(0, std::min(a.size(), b.size()), b, 0, std::min(a.size(), b.size())) == 0)) st.nt(fnv1a(a.data(), a.size(), fnv1a(b.data(), b.size()) ^ 1));
+}
+
+bool has_nul_c(const std::string& p) { return p.find('\0') != std::string::npos; }
+// the relation the archive writers actually sort their INPUT PATHS with, and the name extraction / duplicate detection that follow the sort
+struct ArchiveProbe : Archive::ArchiveFile {
+	static bool before(const std::string& a, const std::string& b) { return ComparePathFilenames(a, b); }
+	static std::vector<std::string> names(const std::vector<std::string>& p) { return GetNamesFromPaths(p); }
+	static void no_duplicates(const std::vector<std::string>& n) { VerifySortedContainerHasNoDuplicateNames(n); }
+};
+bool pathy(const std::string& p) { return !has_nul_c(p) && !p.empty() && p.back() != '/' && p.compare(0, 2, "//") != 0; }
+
+// on paths: a strict weak order whose incomparability is case-insensitive equality of the NAMES the archive will carry
+void member_order_pair(const std::string& a, const std::string& b, Stats& st) {
+	if (!pathy(a) || !pathy(b)) return;
+	bool ab = ArchiveProbe::before(a, b), ba = ArchiveProbe::before(b, a);
+	V_CHECK(!(ab && ba), "member order not asymmetric on paths " << show(a) << "," << show(b));
+	auto nm = ArchiveProbe::names({a, b});
+	V_CHECK(nm.size() == 2, "GetNamesFromPaths returned " << nm.size() << " names for 2 paths");
+	bool same = eq(nm[0], nm[1]);
+	V_CHECK((!ab && !ba) == same, "member order: paths " << show(a) << "," << show(b) << " are " << ((!ab && !ba) ? "incomparable" : "ordered") << " but their member names " << show(nm[0]) << "," << show(nm[1]) << " are " << (same ? "equal" : "different") << " ignoring case");
+	V_CHECK(ab == lt(nm[0], nm[1]), "member order on paths " << show(a) << "," << show(b) << " disagrees with the order of their member names " << show(nm[0]) << "," << show(nm[1]));
+	st.cls(same ? "member_order:equal_names" : "member_order:distinct_names");
+}
+void member_order_triple(const std::string& a, const std::string& b, const std::string& c) {
+	if (!pathy(a) || !pathy(b) || !pathy(c)) return;
+	bool ab = ArchiveProbe::before(a, b), bc = ArchiveProbe::before(b, c), ac = ArchiveProbe::before(a, c);
+	if (ab && bc) V_CHECK(ac, "member order not transitive on paths " << show(a) << "," << show(b) << "," << show(c));
+	bool iab = !ab && !ArchiveProbe::before(b, a), ibc = !bc && !ArchiveProbe::before(c, b), iac = !ac && !ArchiveProbe::before(c, a);
+	if (iab && ibc) V_CHECK(iac, "member order: incomparability not transitive on paths " << show(a) << "," << show(b) << "," << show(c));
+}
+// sort paths as the writers do, extract names, run the adjacent-duplicate detection: it throws exactly when two names are equal ignoring case
+void member_pipeline(std::vector<std::string> paths, Tape& t, Stats& st) {
+	std::vector<std::string> ok; for (auto& p : paths) if (pathy(p)) ok.push_back(p);
+	for (size_t i = ok.size(); i > 1; --i) std::swap(ok[i - 1], ok[t.below(i)]);
+	std::sort(ok.begin(), ok.end(), ArchiveProbe::before);
+	auto nm = ArchiveProbe::names(ok);
+	bool dup = false; for (size_t i = 0; i < nm.size(); ++i) for (size_t j = i + 1; j < nm.size(); ++j) if (ref_eq(nm[i], nm[j])) dup = true;
+	Out o = guarded([&] { ArchiveProbe::no_duplicates(nm); });
+	V_CHECK((o == Out::Err) == dup, "duplicate detection after sorting " << ok.size() << " paths " << (o == Out::Err ? "reports" : "misses") << " a duplicate; names equal ignoring case " << (dup ? "exist" : "do not exist"));
+	st.cls(dup ? "member_pipeline:duplicates" : "member_pipeline:distinct");
 }
 
 void order_triple(const std::string& a, const std::string& b, const std::string& c) {
@@ -154,6 +195,11 @@ void run_case(Tape& t, Stats& st) {
 		std::string c = t.flag() ? case_variant(b, t.u64()) : gen_string(t, 12);
 		order_pair(a, b, st); order_pair(b, c, st); order_pair(a, c, st);
 		order_triple(a, b, c); order_triple(c, a, b); order_triple(b, c, a);
+		{ // the same three as final components of paths in generated directories (the relation the writers sort with looks at the component only)
+		  std::string d1 = t.pick<std::string>({"", "d/", "./", "D/e/", "x\\y/", "a.b/"}), d2 = t.pick<std::string>({"", "d/", "e/f/", "./d/", "zz/"});
+		  member_order_pair(d1 + a, d2 + b, st); member_order_pair(d2 + b, d1 + c, st); member_order_pair(d1 + a, d1 + c, st);
+		  member_order_triple(d1 + a, d2 + b, d1 + c); member_order_triple(d2 + c, d1 + a, d2 + b);
+		  if (t.below(4) == 0) member_pipeline({d1 + a, d2 + b, d1 + c, d2 + "tail", d1 + "Head"}, t, st); }
 		single_laws(a, st); single_laws(b, st);
 		if (st.want_sample()) st.sample("{\"a\":" + jstr(a) + ",\"b\":" + jstr(b) + ",\"c\":" + jstr(c) + "}");
 		break; }
